@@ -278,6 +278,12 @@ def shift_semantics(ctx):
     if loop is None:
         raise AnalysisError("eval_at_control: loop over offsets with a call to self._eval_at_control not found")
     off = loop.target.id if isinstance(loop.target, ast.Name) else None
+    # for offset, group in table.items(): the key of the per-offset table is the offset
+    if off is None and isinstance(loop.target, ast.Tuple) and loop.target.elts and isinstance(loop.target.elts[0], ast.Name) and isinstance(loop.iter, ast.Call) \
+            and isinstance(loop.iter.func, ast.Attribute) and loop.iter.func.attr == "items":
+        off = loop.target.elts[0].id
+    if off is None:
+        raise AnalysisError("eval_at_control: the offset variable of the per-offset loop could not be identified")
     raises = []
     for st in loop.body:
         if isinstance(st, ast.If) and any(isinstance(x, ast.Raise) for x in st.body):
